@@ -134,6 +134,12 @@ type task struct {
 	key       uint64
 	randReads int
 	label     string
+	// unbuffered rendezvous
+	sendVal   any
+	sendTaken bool
+	xferVal   any
+	xferReady bool
+	condWake  bool
 }
 
 // Sim is the state of the running simulation.
@@ -155,6 +161,7 @@ type Sim struct {
 	nextOrd   int
 	chans     map[unsafe.Pointer]*chanState
 	shadow    map[unsafe.Pointer]*shadowVar
+	atomVC    map[unsafe.Pointer]vclock
 	races     []Race
 	raceSeen  map[string]bool
 	probes    map[string]int
@@ -635,6 +642,22 @@ func SetLabel(l string) {
 	if s := S; s != nil && s.cur != nil {
 		s.cur.label = l
 	}
+}
+
+// LiveAdopted returns how many tasks started by instrumented `go` statements
+// (as opposed to harness tasks, which are named) have not finished yet.
+func LiveAdopted() int {
+	s := S
+	if s == nil {
+		return 0
+	}
+	n := 0
+	for _, t := range s.tasks {
+		if !t.finished && strings.HasPrefix(t.name, "go#") {
+			n++
+		}
+	}
+	return n
 }
 
 // Probe counts the occurrence of a named condition.
